@@ -11,6 +11,7 @@ import (
 
 	"github.com/internetarchive/Zeno/internal/pkg/archiver"
 	"github.com/internetarchive/Zeno/internal/pkg/config"
+	"github.com/internetarchive/Zeno/internal/pkg/controler/pause"
 	"github.com/internetarchive/Zeno/internal/pkg/finisher"
 	"github.com/internetarchive/Zeno/internal/pkg/postprocessor"
 	"github.com/internetarchive/Zeno/internal/pkg/postprocessor/domainscrawl"
@@ -112,6 +113,7 @@ func Start(s Settings, site Site, dir string) (*Pipeline, error) {
 	}
 	stats.Init()
 	stats.Reset()
+	pause.VerifReset()
 
 	p := &Pipeline{S: s, Dir: dir, Seq: &atomic.Int64{}, stopRecv: make(chan struct{})}
 	p.Net = NewNet(site, p.Seq)
